@@ -525,3 +525,145 @@ def exported_property_values_are_exact(ctx):
                     ctx.bad(f'{f.qualname}:exported datainfo is exact', r, f'`{src(bad)}` formats a number on the way into the datainfo', u)
         if n == 0:
             ctx.ok(f'{f.qualname}:exported datainfo is exact', f.node, 'no overridden property values', f)
+
+
+_LOWER = {'min', 'minlen', 'minchars', 'minbytes'}
+_UPPER = {'max', 'maxlen', 'maxchars', 'maxbytes'}
+
+
+@rule('C03.R7', min_instances=20)
+def compatibility_verdicts_refuse(ctx):
+    """compatible(self, other) passes only if every value of self is a value of other.  Decided per implementation: a foreign
+    kind of `other` never reaches a normal exit (negative isinstance test raises / positive ones are the only way to a normal
+    exit / the AttributeError handler raises); every limit of self is compared with the same limit of other in the narrowing
+    direction and the violating side raises; the numeric kinds offer BOTH end points to other on every accepting path; bool
+    offers both values, enum every member, tuple checks the arity, struct the mandatory members, command the argument and the
+    result in opposite directions"""
+    m = ctx.m
+    for q in sorted(m.subclasses(f'{DT}.DataType')):
+        ci = m.classes[q]
+        f = ci.methods.get('compatible')
+        if ci.module.name != DT or f is None or len(f.node.args.args) < 2:
+            continue
+        ctx.analysed(f)
+        o = f.node.args.args[1].arg
+        cfg = CFG(f.node, m, f.module)
+        name = ci.name
+        # (1) tests that mention `other`: the refusing side raises
+        for t in cfg.nodes:
+            if t.kind != 'test':
+                continue
+            a = t.ast
+            neg = isinstance(a, ast.UnaryOp) and isinstance(a.op, ast.Not)
+            core = a.operand if neg else a
+            if isinstance(core, ast.Call) and dotted(core.func) == 'isinstance' and core.args and src(core.args[0]) == o:
+                if neg:
+                    ctx.check(side_never_completes(cfg, t.id, 'T'), f'{f.qualname}:foreign kind is refused', a, f'`{src(a)}` raises',
+                              f'`{src(a)}`: the branch for a foreign datatype does not raise - {name} is declared compatible with any datatype', f)
+                continue
+            lims = []
+            for sub in (a.values if isinstance(a, ast.BoolOp) else [a]):
+                for l, op, r in compare_ops(sub):
+                    for p in _LOWER | _UPPER | {'isUTF8'}:
+                        if {l, r} == {f'self.{p}', f'{o}.{p}'} and op in ('<', '<='):
+                            self_left = l == f'self.{p}'
+                            violating = self_left if p in _LOWER else not self_left      # self.min < other.min ; other.max < self.max
+                            if p == 'isUTF8':
+                                violating = not self_left                                 # other.isUTF8 < self.isUTF8
+                            lims.append((p, violating, op == '<'))
+                    if op in ('!=', '==') and 'len(' in l and 'len(' in r and o in l + r:
+                        ctx.check(side_never_completes(cfg, t.id, 'T' if op == '!=' else 'F'), f'{f.qualname}:different arity is refused', a,
+                                  'the unequal side raises', f'`{src(a)}`: tuples of different length are declared compatible (zip() truncates the member check)', f)
+            if lims:
+                kinds = {v for p, v, s in lims}
+                if len(kinds) == 1:
+                    label = 'T' if kinds == {True} else 'F'
+                    ctx.check(side_never_completes(cfg, t.id, label), f'{f.qualname}:wider limits are refused', a, f'`{src(a)}`: the violating side raises',
+                              f'`{src(a)}`: the side on which self is wider than other completes normally - a type whose values do not fit is declared compatible', f)
+                    for p, v, strict in lims:
+                        ok = strict if v else not strict
+                        ctx.check(ok, f'{f.qualname}:equal {p} is compatible', a, f'`{src(a)}`',
+                                  f'`{src(a)}`: equal {p} on both sides is refused (or one step wider accepted)', f)
+                else:
+                    ctx.undecided(f'{f.qualname}:wider limits are refused', a, 'mixed polarity', f)
+            if isinstance(a, ast.Name) and any(isinstance(v, ast.BinOp) and o in src(v) for v, st, how in local_assigns(f.node, a.id) if v is not None):
+                ctx.check(side_never_completes(cfg, t.id, 'T'), f'{f.qualname}:remaining mandatory members are refused', a, f'`if {a.id}:` raises',
+                          f'`if {a.id}:` does not raise: a struct lacking members that are mandatory in the other type is declared compatible', f)
+        # (2) positive isinstance dispatch: no normal exit without passing one of the tests on its true side
+        pos = [t for t in cfg.nodes if t.kind == 'test' and isinstance(t.ast, ast.Call) and dotted(t.ast.func) == 'isinstance'
+               and t.ast.args and src(t.ast.args[0]) == o]
+        if pos:
+            tsucc = {b for t in pos for b, lab in cfg.succ[t.id] if lab == 'T'}
+            r = cfg.reach([cfg.entry], avoid=tsucc, exc=False)
+            ctx.check(cfg.exit not in r, f'{f.qualname}:foreign kind is refused', pos[0].ast, 'every normal exit lies behind an isinstance test of other',
+                      'a path on which every isinstance test of `other` failed reaches a normal exit: any datatype is declared compatible', f)
+        # (3) attribute style: the AttributeError handler raises
+        for h in [x for x in body_walk(f.node) if isinstance(x, ast.ExceptHandler)]:
+            ctx.check(contains_raise(h.body) and isinstance(h.body[-1], ast.Raise), f'{f.qualname}:foreign kind is refused (handler)', h,
+                      'the handler ends in a raise', 'the handler for a foreign datatype (missing attribute) does not raise: any datatype is declared compatible', f)
+        # (4) required limit comparisons per class
+        props = {a for qq in m.mro(ci.qualname) for a, e in (m.classes[qq].assigns.items() if qq in m.classes else [])
+                 if a in (_LOWER | _UPPER) and isinstance(e, ast.Call) and dotted(e.func) == 'Property'}
+        text = ' '.join(src(t.ast) for t in cfg.nodes if t.kind == 'test')
+        ends = {p: [c for c in calls_in(f.node) if ((isinstance(c.func, ast.Name) and c.func.id == o) or
+                                                    (isinstance(c.func, ast.Attribute) and dotted(c.func.value) == o and c.func.attr in ('validate', 'import_value')))
+                    and c.args and src(c.args[0]) == f'self.{p}'] for p in ('min', 'max')}
+        for p in sorted(props):
+            compared = f'self.{p}' in text and f'{o}.{p}' in text
+            if p in ('min', 'max') and not compared:
+                # numeric kinds: the end point is offered to other on every accepting path (or every integer of the range is)
+                via = [i for c in ends[p] for i in cfg.node_of(c)]
+                via += [i for loop in body_walk(f.node) if isinstance(loop, ast.For) and isinstance(loop.iter, ast.Call) and dotted(loop.iter.func) == 'range'
+                        and 'self.min' in src(loop.iter) and 'self.max' in src(loop.iter)
+                        and any(isinstance(c.func, ast.Name) and c.func.id == o for c in calls_in(loop)) for i in cfg.ids(loop)]
+                ok = bool(via) and cfg.all_paths_pass([cfg.entry], [cfg.exit], via, exc=False)
+                ctx.check(ok, f'{f.qualname}:{p} is offered to the other type', f.node, f'every accepting path passes {o}.validate(self.{p})',
+                          f'a normal exit is reachable without offering self.{p} to `{o}`: a range that is wider than the other type at its '
+                          f'{"lower" if p == "min" else "upper"} end is declared compatible', f)
+            else:
+                ctx.check(compared, f'{f.qualname}:{p} is compared', f.node, f'self.{p} is compared with {o}.{p}',
+                          f'self.{p} is not compared with {o}.{p}: a type that is wider in {p} is declared compatible', f)
+        # (5) class specific
+        if name == 'BoolType':
+            consts = {c.args[0].value for c in calls_in(f.node) if isinstance(c.func, ast.Name) and c.func.id == o and c.args and isinstance(c.args[0], ast.Constant)}
+            ctx.check(consts >= {True, False}, f'{f.qualname}:both values are offered', f.node, 'other(False) and other(True)',
+                      f'only {sorted(consts)} offered: a target that lacks one of the two values is declared compatible', f)
+        if name == 'EnumType':
+            loops = [x for x in body_walk(f.node) if isinstance(x, ast.For) and 'members' in src(x.iter)
+                     and any(isinstance(c.func, ast.Name) and c.func.id == o and c.args and src(c.args[0]) == src(x.target) for c in calls_in(x))]
+            ctx.check(bool(loops), f'{f.qualname}:every member is offered', f.node, 'for m in members: other(m)',
+                      'the members are not all offered to the other type', f)
+        if name == 'StringType':
+            ctx.check('self.isUTF8' in text and f'{o}.isUTF8' in text, f'{f.qualname}:isUTF8 is compared', f.node, 'UTF-8 into ASCII is refused',
+                      'isUTF8 is not compared: a UTF-8 string type is declared compatible with an ASCII-only one', f)
+        if name in ('ArrayOf', 'TupleOf'):
+            mc = [c for c in calls_in(f.node) if call_attr(c) == 'compatible']
+            ctx.check(bool(mc), f'{f.qualname}:members are compared', f.node, 'member types are checked', 'the member datatypes are not compared', f)
+        if name == 'CommandType':
+            calls = {src(c) for c in calls_in(f.node) if call_attr(c) == 'compatible'}
+            ctx.check(f'self.argument.compatible({o}.argument)' in calls and f'{o}.result.compatible(self.result)' in calls,
+                      f'{f.qualname}:argument and result are checked in opposite directions', f.node, 'argument: self into other, result: other into self',
+                      f'found {sorted(calls)}', f)
+
+
+@rule('C03.R2c', min_instances=4)
+def copy_returns_a_datatype(ctx):
+    """every copy() override of a datatype returns an object on every normal exit (a constructor call / a copy), never
+    None by falling off the end"""
+    m = ctx.m
+    for q in sorted([f'{DT}.DataType'] + m.subclasses(f'{DT}.DataType')):
+        ci = m.classes[q]
+        f = ci.methods.get('copy')
+        if ci.module.name != DT or f is None:
+            continue
+        ctx.analysed(f)
+        cfg = CFG(f.node, m, f.module)
+        bad = []
+        for a, lab in cfg.pred.get(cfg.exit, []):
+            st = cfg.nodes[a].ast
+            if lab == 'exc':
+                continue
+            if not (isinstance(st, ast.Return) and st.value is not None and not (isinstance(st.value, ast.Constant) and st.value.value is None)):
+                bad.append(st)
+        ctx.check(not bad, f'{f.qualname}:returns the copy', f.node, 'every normal exit returns an object',
+                  f'{ci.name}.copy() can return None: Parameter.clone / DataType.copy callers then hold no datatype', f)
